@@ -152,5 +152,12 @@ def harnesses(tier, seed):
         g = ctx.choose([(0, 1), (0, 1, 3), (0, 2, 3, 7)], "grid")
         judge(ctx, check_reject, {"strategy": st, "x": list(g), "y": list(range(len(g))), "n": n, "p": {}})
 
-    return [{"name": "structure", "body": body}, {"name": "structure-long", "body": long_body},
+    def alln_body(ctx):
+        # the quantifier says n in 2..64: every n for a few grids (uniform integer, 1 + 0.3 k, non-uniform)
+        st = ctx.choose(strategies, "strategy")
+        x = ctx.choose([[0.0, 1.0, 2.0], [1.0, 1.3, 1.6, 1.9, 2.2], [0.0, 1.0, 4.0, 4.5, 6.5], [0.1 * k for k in range(4)]], "grid")
+        for n in range(2, 65):
+            judge(ctx, check_structure, {"strategy": st, "x": x, "y": _patterns(len(x))[2], "n": n, "p": {}}, bulk=True)
+
+    return [{"name": "every-n-2..64", "body": alln_body}, {"name": "structure", "body": body}, {"name": "structure-long", "body": long_body},
             {"name": "reject-n<2", "body": reject_body}]
